@@ -10,7 +10,7 @@ T  full runs over the test structures, fragments and constructed label/terminus 
 """
 import json
 
-from .. import corpus, runbank
+from .. import corpus, runbank, tlc
 from . import c01_reader
 
 C = corpus
@@ -100,12 +100,20 @@ def run(ctx):
     # ---- M -------------------------------------------------------------------------------
     if ctx.thorough():
         c01_reader.model_check(ctx, [("MC_PdbReader.cfg", "reader: termini, sequences <= 5"),
-                                     ("MC_PdbReader_rich.cfg", "reader: models, alt-locs, hetero, ignorable, chains, <= 4")])
+                                     ("MC_PdbReader_rich.cfg", "reader: models, alt-locs, hetero, ignorable, chains, <= 4"),
+                                     ("MC_PdbReader_mut.cfg", "reader: alt-loc point mutants, <= 5")])
+        # self-tests: mechanisms with a narrower / wider residue key must be refuted by TLC
+        for cfg in ("MC_PdbReader_num.cfg", "MC_PdbReader_named.cfg"):
+            r = tlc.run("MC_PdbReader", cfg, timeout=3000)
+            ctx.extra.setdefault("selftests_refuted", {})[cfg] = (r.invariant_violated == "Agree")
+            if r.invariant_violated != "Agree":
+                raise tlc.TLCError(f"self-test {cfg}: a mechanism with the wrong residue key was not refuted")
     else:
         c01_reader.model_check(ctx, [("MC_PdbReader_q.cfg", "reader: termini, sequences <= 4"),
                                      ("MC_PdbReader_rich3.cfg", "reader: models, alt-locs, hetero, ignorable, chains, <= 3")])
     # ---- G -------------------------------------------------------------------------------
     gens = [("Gen_PdbReader_term3.cfg", "emit termini <= 3", None), ("Gen_PdbReader2.cfg", "emit rich <= 2", None),
+            ("Gen_PdbReader_mut.cfg" if ctx.thorough() else "Gen_PdbReader_mut3.cfg", "emit alt-loc point mutants", None),
             ("Gen_PdbReader_sim.cfg", "simulated rich sequences <= 14", "num=%d" % (30 if not ctx.thorough() else 600))]
     if ctx.thorough():
         gens = [("Gen_PdbReader_term.cfg", "emit termini <= 4", None), ("Gen_PdbReader.cfg", "emit rich <= 3", None)] + gens[2:]
